@@ -120,6 +120,7 @@ func Conf(dir string, fastSync bool) *viper.Viper {
 
 // Kit is one assembled node.
 type Kit struct {
+	DBs    map[string]dbm.DB
 	Ang    *gemmill.Angine
 	Conf   *viper.Viper
 	Switch *p2p.Switch
@@ -161,10 +162,19 @@ func Assemble(app types.Application, gen *types.GenesisDoc, self *Key, conf *vip
 	if ang.VerifAsmState() == nil {
 		return nil, fmt.Errorf("state machine not assembled")
 	}
-	return &Kit{Ang: ang, Conf: conf, Switch: sw, Self: self, Dir: dir}, nil
+	return &Kit{DBs: dbs, Ang: ang, Conf: conf, Switch: sw, Self: self, Dir: dir}, nil
 }
 
 func (k *Kit) State() *state.State { return k.Ang.VerifAsmState() }
+
+// SavedHeight is the height of the state last written by State.Save() (0 if none): the last thing the
+// fast-sync executer and a live node's finalizeCommit do for a block.
+func (k *Kit) SavedHeight() int64 {
+	if s := state.LoadState(k.DBs["state"]); s != nil {
+		return s.LastBlockHeight
+	}
+	return 0
+}
 
 // Apply executes and commits one block on the node exactly as a live node's finalizeCommit does for the
 // state part (ApplyBlock on the assembled state with the real verifier/executable, then Save) after
